@@ -607,6 +607,16 @@ func (db *DB) Create(o Object, s Schema) (err error) {
 	defer db.Unlock()
 	var es *Schema
 
+	// asynchronous writes settings hold the state of their routine so they
+	// must not be shared with caller's Schema, which may be used to create
+	// other collections or be given again later
+	if s.AsyncWrites != nil {
+		s.AsyncWrites = &Async{
+			Enable:    s.AsyncWrites.Enable,
+			Threshold: s.AsyncWrites.Threshold,
+			Timeout:   s.AsyncWrites.Timeout}
+	}
+
 	es, err = db.schema(o)
 
 	switch {
